@@ -28,7 +28,7 @@ theorem step_commenting (st : State) (op : Op) :
     (step st op).commenting = op.pendingAfter st.commenting := by
   cases op with
   | trivia c t =>
-    cases c <;> simp only [step, writeTrivia, Op.pendingAfter, pushStr, uncomment] <;>
+    cases c <;> simp only [step, writeTrivia, Op.pendingAfter, pushStr, uncomment, pushSpace] <;>
       (repeat' split) <;> simp_all
   | token t l sc r =>
     simp only [step, writeTokenContent, Op.pendingAfter, prepToken, pushStr, uncomment, pad, pushSpace]
@@ -43,7 +43,7 @@ theorem step_line (st : State) (op : Op) :
     (step st op).line = op.lineAfter st.line st.commenting := by
   cases op with
   | trivia c t =>
-    cases c <;> simp only [step, writeTrivia, Op.lineAfter, Op.fires, pushStr, uncomment] <;>
+    cases c <;> simp only [step, writeTrivia, Op.lineAfter, Op.fires, pushStr, uncomment, pushSpace] <;>
       (repeat' split) <;> simp_all
   | token t l sc r =>
     simp only [step, writeTokenContent, Op.lineAfter, prepToken, pushStr, uncomment, pad, pushSpace]
@@ -64,8 +64,8 @@ theorem step_inv (st : State) (op : Op) (h : Inv st) : Inv (step st op) := by
   unfold Inv at *
   cases op with
   | trivia c t =>
-    cases c <;> simp only [step, writeTrivia, pushStr, uncomment] <;>
-      (repeat' split) <;> simp_all [cnl_append, cnl_reverse, cnl_cons_nl] <;> omega
+    cases c <;> simp only [step, writeTrivia, pushStr, uncomment, pushSpace] <;>
+      (repeat' split) <;> simp_all [cnl_append, cnl_reverse, cnl_cons_nl, cnl_cons_sp] <;> omega
   | token t l sc r =>
     simp only [step, writeTokenContent, prepToken, pushStr, uncomment, pad, pushSpace]
     (repeat' split) <;> simp_all [cnl_append, cnl_reverse, cnl_cons_nl, cnl_cons_sp, cnl_replicate] <;> omega
@@ -92,7 +92,7 @@ one, i.e. the old output text is a prefix of the new output text. -/
 theorem step_rout (st : State) (op : Op) : st.rout <:+ (step st op).rout := by
   cases op with
   | trivia c t =>
-    cases c <;> simp only [step, writeTrivia, pushStr, uncomment] <;> (repeat' split) <;>
+    cases c <;> simp only [step, writeTrivia, pushStr, uncomment, pushSpace] <;> (repeat' split) <;>
       repeat (first | exact List.suffix_refl _ | apply suf_app | apply suf_cons)
   | token t l sc r =>
     simp only [step, writeTokenContent, prepToken, pushStr, uncomment, pad, pushSpace]
@@ -129,8 +129,8 @@ theorem step_piece_lines (st : State) (op : Op) (hp : op.isPiece = true) (hinv :
   unfold Inv at hinv
   cases op with
   | trivia c t =>
-    cases c <;> simp only [step, writeTrivia, pushStr, uncomment, Op.text] <;>
-      (repeat' split) <;> simp_all [Op.fires, cnl_append, cnl_reverse] <;> omega
+    cases c <;> simp only [step, writeTrivia, pushStr, uncomment, pushSpace, Op.text] <;>
+      (repeat' split) <;> simp_all [Op.fires, cnl_append, cnl_reverse, cnl_cons_sp] <;> omega
   | token t l sc r =>
     by_cases ht : t.isEmpty = true
     · have : t = [] := by simpa using ht
@@ -151,26 +151,22 @@ theorem step_piece_lines (st : State) (op : Op) (hp : op.isPiece = true) (hinv :
   | rawPush t => simp [Op.isPiece] at hp
   | rawSpace => simp [Op.isPiece] at hp
 
-theorem needsSpace_eq (st : State) (c : UInt8) :
-    needsSpace st c = (match st.rout.head? with | some e => shouldBreakWithSpace e c | none => false) := by
-  unfold needsSpace
-  cases st.rout <;> rfl
-
 theorem step_piece_exact (st : State) (op : Op) (hp : op.isPiece = true) (hinv : Inv st)
     (hf : op.fires st.commenting = false) (hl : op.lineOk (countNewLines st.rout) = true)
-    (hs : op.h3ok st.rout.head? st.lastEnd = true) :
+    (hs : op.h3ok st.rout.head? st.lastEnd st.numDot = true) :
     (step st op).rout = op.text.reverse ++ st.rout ∧ (step st op).spaces = st.spaces ∧
-    (step st op).lastEnd = op.endAfter st.lastEnd := by
+    (step st op).lastEnd = op.endAfter st.lastEnd ∧ (step st op).numDot = op.numDotAfter st.numDot := by
   unfold Inv at hinv
   cases op with
   | trivia c t =>
-    cases c <;> simp only [step, writeTrivia, pushStr, uncomment, Op.text, Op.endAfter] <;>
-      (repeat' split) <;> simp_all [Op.fires]
+    cases c <;> simp only [step, writeTrivia, pushStr, uncomment, pushSpace, Op.text, Op.endAfter,
+      Op.numDotAfter] <;>
+      (repeat' split) <;> simp_all [Op.fires, Op.h3ok]
   | token t l sc r =>
     by_cases ht : t.isEmpty = true
     · have : t = [] := by simpa using ht
       subst this
-      simp [step, writeTokenContent, Op.text, Op.endAfter]
+      simp [step, writeTokenContent, Op.text, Op.endAfter, Op.numDotAfter]
     · have hc : st.commenting = false := by simpa [Op.fires, ht] using hf
       have hnospace : ∀ c, t.head? = some c →
           (sc && !followsOriginal st.lastEnd r && needsSpace st c) = false := by
@@ -181,18 +177,16 @@ theorem step_piece_exact (st : State) (op : Op) (hp : op.isPiece = true) (hinv :
           simp only [Op.h3ok, hc', Bool.or_eq_true] at hs
           rcases hs with hs | hs
           · simp [hs]
-          · rw [needsSpace_eq]
-            cases hr : st.rout.head? with
-            | none => simp
-            | some e => simp [hr] at hs; simp [hs]
+          · have : needsSpace st c = false := by simpa [needsSpace] using hs
+            simp [this]
       cases l with
       | none =>
-        simp only [step, writeTokenContent, prepToken, hc, Op.text, Op.endAfter]
+        simp only [step, writeTokenContent, prepToken, hc, Op.text, Op.endAfter, Op.numDotAfter]
         (repeat' split) <;> simp_all [pushStr, pushSpace]
       | some n =>
         have hn : n ≤ st.line := by
           simp [Op.lineOk, ht] at hl; omega
-        simp only [step, writeTokenContent, prepToken, hc, Op.text, Op.endAfter]
+        simp only [step, writeTokenContent, prepToken, hc, Op.text, Op.endAfter, Op.numDotAfter]
         rw [show (if false = true then uncomment st else st) = st from rfl, pad_self st n hn]
         (repeat' split) <;> simp_all [pushStr, pushSpace]
   | symbol t sc => simp [Op.isPiece] at hp
@@ -228,7 +222,7 @@ theorem run_pieces_lines : ∀ (l : List Op) (st : State), (∀ op ∈ l, op.isP
 
 theorem run_pieces_exact : ∀ (l : List Op) (st : State), (∀ op ∈ l, op.isPiece = true) → Inv st →
     linesOk (countNewLines st.rout) l = true → commentsOk st.commenting l = true →
-    h3 st.rout.head? st.lastEnd l = true →
+    h3 st.rout.head? st.lastEnd st.numDot l = true →
     (run st l).rout = (texts l).reverse ++ st.rout ∧ (run st l).spaces = st.spaces := by
   intro l
   induction l with
@@ -240,7 +234,7 @@ theorem run_pieces_exact : ∀ (l : List Op) (st : State), (∀ op ∈ l, op.isP
     have h1 := step_piece_exact st op (hp op (by simp)) hinv hc.1 hl.1 hs.1
     have h2 := ih (step st op) (fun o ho => hp o (by simp [ho])) (step_inv st op hinv)
       (by rw [h0.2.2]; exact hl.2) (by rw [step_commenting]; exact hc.2)
-      (by rw [h1.1, h1.2.2, head_lastOf]; exact hs.2)
+      (by rw [h1.1, h1.2.2.1, h1.2.2.2, head_lastOf]; exact hs.2)
     simp only [run, texts]
     refine ⟨?_, by rw [h2.2, h1.2.1]⟩
     rw [h2.1, h1.1]; simp
